@@ -519,6 +519,10 @@ func (s *Sim) absorb() {
 		switch ev.Class {
 		case "dial", "net", "exec":
 			ev.Due = now + s.LatTable[s.Sched.Draw(len(s.LatTable))]
+		case "unlocked", "start":
+			// a goroutine that has just released a lock (or has just been created) may be
+			// descheduled for a while before it goes on: usually not, sometimes for milliseconds
+			ev.Due = now + []time.Duration{0, 0, 0, 0, 0, 0, 0, 0, 0, 0, time.Millisecond, 30 * time.Millisecond}[s.Sched.Draw(12)]
 		default:
 			ev.Due = now
 		}
